@@ -39,18 +39,109 @@ def _coords(cs):
     return enc(*[x for c in cs for x in (c.longitude, c.latitude)])
 
 
+
+# --------------------------------------------------------------------------------------------------
+# observe - mutate - observe again: a shape is a value.  Nothing the caller does afterwards to the containers it
+# passed in, to containers the shape handed out, or to objects derived from the shape may change what the shape
+# answers; neither may asking twice.
+
+
+def _tup(cs):
+    return tuple((c.longitude, c.latitude) for c in cs)
+
+
+def _observe(shape, kw, queries, exports):
+    """everything C03 lets one see of a curved shape (holes included)"""
+    poly = shape.to_polygon(**kw)
+    obs = [
+        ''.join('T' if shape.contains_coordinate(q) else 'F' for q in queries),
+        _tup(shape.bounding_coords(**kw)),
+        tuple(_tup(r) for r in shape.linear_rings(**kw)),
+        _tup(poly.outline),
+        tuple(_tup(h.bounding_coords(**kw)) for h in poly.holes),
+        ''.join('T' if poly.contains_coordinate(q) else 'F' for q in queries[:6]),
+        len(shape.holes),
+        len(shape.bounding_coords(k=5)),
+    ]
+    if exports:
+        import json
+        obs.append(shape.to_wkt(**kw))
+        obs.append(json.dumps(shape.to_geojson(**kw)['geometry']))
+    return obs
+
+
+BATCH_END = ('second-observation', 'copy-holes-append', 'other-shapes-queried')
+
+
+def history(make, holes, decoy, kw, queries, exports=True, fine=False):
+    """
+    Build the shape from a caller-owned hole list, observe, then run every kind of later interference and observe again:
+    after asking twice, after the "append" phase and after the "clear" phase (after every single step when `fine`, which
+    is how a failing phase is narrowed down to the step that caused it).
+    Returns (shape, None) or (shape, 'MUTATED:<step>').
+    """
+    work = list(holes)
+    shape = make(work)
+    base = _observe(shape, kw, queries, exports)
+
+    def steps():
+        yield 'second-observation'                       # caches / state carried across calls
+        work.append(decoy)
+        yield 'caller-list-append'                       # the caller goes on using its list
+        make(work)
+        yield 'second-shape-from-same-list'
+        poly = shape.to_polygon(**kw)
+        poly.holes.append(decoy)
+        yield 'polygon-form-holes-append'                # containers handed to derived objects
+        cp = shape.copy()
+        cp.holes.append(decoy)
+        yield 'copy-holes-append'
+        work.clear()
+        yield 'caller-list-clear'
+        poly.holes.clear()
+        yield 'polygon-form-holes-clear'
+        poly.outline.clear()
+        yield 'polygon-form-outline-clear'
+        rings = shape.linear_rings(**kw)
+        for r in rings:
+            r.clear()
+        rings.clear()
+        shape.bounding_coords(**kw).clear()
+        yield 'returned-rings-clear'                     # containers the shape handed out
+        cp.holes.clear()
+        yield 'copy-holes-clear'
+        for q in queries[:3]:
+            decoy.contains_coordinate(q)
+            cp.contains_coordinate(q)
+        yield 'other-shapes-queried'                     # module-level state keyed by value / id
+    for step in steps():
+        if (fine or step in BATCH_END) and _observe(shape, kw, queries, exports) != base:
+            if not fine:
+                w = history(make, holes, decoy, kw, queries, exports, fine=True)[1]
+                return shape, w or 'MUTATED:before-' + step
+            return shape, 'MUTATED:' + step
+    return shape, None
+
+
 def impl(line):
     from geostructures import GeoCircle, GeoEllipse, GeoRing
     cmd, *a = line.split()
     op = cmd.split('.', 1)[1]
     v = floats(a)
     if op in ('circle', 'pipC'):
-        shape, k = GeoCircle(C(v[0], v[1]), v[2]), v[3]
+        mk, k, size = (lambda hs: GeoCircle(C(v[0], v[1]), v[2], holes=hs)), v[3], v[2]
     elif op in ('ellipse', 'pipE'):
-        shape, k = GeoEllipse(C(v[0], v[1]), v[2], v[3], v[4]), v[5]
+        mk, k, size = (lambda hs: GeoEllipse(C(v[0], v[1]), v[2], v[3], v[4], holes=hs)), v[5], v[2]
     elif op in ('ring', 'lrings', 'pipR'):
-        shape, k = GeoRing(C(v[0], v[1]), v[2], v[3], v[4], v[5]), v[6]
+        mk, k, size = (lambda hs: GeoRing(C(v[0], v[1]), v[2], v[3], v[4], v[5], holes=hs)), v[6], v[3]
     if op in ('circle', 'ellipse', 'ring'):
+        # the vertices do not depend on the holes; the shape is built from a caller-owned list with one hole and put
+        # through the observe - mutate - observe sequence before its ring is reported
+        centre = C(v[0], v[1])
+        shape, w = history(mk, [GeoCircle(centre, size / 8)], GeoCircle(centre, size * 3), _kw(k),
+                           [centre, C(v[0], min(89.0, v[1] + 0.0001))], exports=False)
+        if w:
+            return w
         pts = shape.bounding_coords(**_kw(k))
         # the polygon form carries exactly this ring
         rings = shape.linear_rings(**_kw(k))
@@ -62,17 +153,27 @@ def impl(line):
         if list(poly.outline) != list(want0) and list(poly.outline) != list(want0)[::-1]:
             return 'MISMATCH:to_polygon'
         return _coords(pts)
+    if op in ('lrings', 'pipC', 'pipE', 'pipR'):
+        shape = mk([])
     if op == 'lrings':
         return ' | '.join(_coords(r) for r in shape.linear_rings(**_kw(k)))
-    if op == 'inC':
-        hs, i = _holes(v, 4, int(v[3]))
-        shape = GeoCircle(C(v[0], v[1]), v[2], holes=hs)
-    elif op == 'inE':
-        hs, i = _holes(v, 6, int(v[5]))
-        shape = GeoEllipse(C(v[0], v[1]), v[2], v[3], v[4], holes=hs)
-    elif op == 'inR':
-        hs, i = _holes(v, 7, int(v[6]))
-        shape = GeoRing(C(v[0], v[1]), v[2], v[3], v[4], v[5], holes=hs)
+    if op in ('inC', 'inE', 'inR'):
+        if op == 'inC':
+            hs, i = _holes(v, 4, int(v[3]))
+            mk, size = (lambda h: GeoCircle(C(v[0], v[1]), v[2], holes=h)), v[2]
+        elif op == 'inE':
+            hs, i = _holes(v, 6, int(v[5]))
+            mk, size = (lambda h: GeoEllipse(C(v[0], v[1]), v[2], v[3], v[4], holes=h)), v[2]
+        else:
+            hs, i = _holes(v, 7, int(v[6]))
+            mk, size = (lambda h: GeoRing(C(v[0], v[1]), v[2], v[3], v[4], v[5], holes=h)), v[3]
+        qs = [C(v[j], v[j + 1]) for j in range(i, len(v), 2)]
+        # re-observed after every interference: a stride of the queries plus every query placed around a hole
+        sub = qs[::7] + qs[len(qs) - 12 * len(hs):] if hs else qs[::7]
+        shape, w = history(mk, hs, GeoCircle(C(v[0], v[1]), max(size, 1.0) * 3), {}, sub)
+        if w:
+            return w
+        return ''.join('T' if shape.contains_coordinate(q) else 'F' for q in qs)
     elif op in ('pipC', 'pipE', 'pipR'):
         # harness-only: exact even-odd test of the query points against the ring the shape generates
         i = {'pipC': 4, 'pipE': 6, 'pipR': 7}[op]
@@ -87,9 +188,7 @@ def impl(line):
         return ''.join(out)
     elif op == 'rat':
         return enc(GeoEllipse(C(0.0, 0.0), v[0], v[1], 0.0)._radius_at_angle(v[2]))
-    else:
-        raise ValueError('unknown op ' + op)
-    return ''.join('T' if shape.contains_coordinate(C(v[j], v[j + 1])) else 'F' for j in range(i, len(v), 2))
+    raise ValueError('unknown op ' + op)
 
 
 def _unwrap(ref, lon):
@@ -125,7 +224,7 @@ def pip_exact(ring, q):
 
 def cmp_ring(a, m):
     """every implementation vertex is a correct 1e-7 degree rounding of the model's un-rounded vertex"""
-    if is_err(a) or is_err(m) or a.startswith('MISMATCH'):
+    if is_err(a) or is_err(m) or a.startswith('MISMATCH') or a.startswith('MUTATED'):
         return a == m
     ra, rm = a.split(' | '), m.split(' | ')
     if len(ra) != len(rm):
@@ -184,6 +283,8 @@ def why_ring(a, s):
         return 'raises'
     if a.startswith('MISMATCH'):
         return a.split(':')[1] + '-differs-from-bounding_coords'
+    if a.startswith('MUTATED'):
+        return 'observations-changed-after:' + a.split(':')[1]
     cmd, *t = s.split()
     op = cmd.split('.', 1)[1]
     v = floats(t)
@@ -422,6 +523,8 @@ def finding_key(line, a, s):
         return f'{SITE[op]}/{why_ring(a, s)}'
     if is_err(a):
         return f'{SITE[op]}/raises'
+    if a.startswith('MUTATED'):
+        return f'{SITE[op].split(".")[0]}/observations-changed-after:{a.split(":")[1]}'
     if op.startswith('pip'):
         return f'{SITE[op]}/ring-disagrees-with-analytic-test'
     return f'{SITE[op]}/value'
@@ -641,6 +744,11 @@ def check(run):
              '(k+1 .. 2k+3 vertices) or ~100-200 query points placed by the oracle at 0.5x..2x (incl. 1 +- 3e-6) of every '
              'boundary distance on 10-16 bearings, the wedge side bearings +-1e-4 deg and around the holes. distinct by line.',
         assumptions=['binary64/libm shared by CPython and Lean; float error and the 2 cm figure are measured, not proved',
+                     'every ring-vertices / contains-analytic line builds its shape from a caller-owned hole list and is put through '
+                     'an observe - mutate - observe sequence before it answers (ask twice; caller appends to / clears its list and '
+                     'builds a second shape from it; holes / outline of the polygon form, the returned ring lists and the holes of a '
+                     'copy are appended to / cleared; other shapes are queried): contains_*, bounding_coords, linear_rings, '
+                     'to_polygon (outline, holes, membership), WKT and GeoJSON must not change (answer MUTATED:<step> otherwise)',
                      'vertex-on-curve is the distance to the curve (radial residual / sqrt(1 + (R\'/R)^2))',
                      'contains_* are judged outside a 1e-6 relative band around every boundary (ellipse: plus the effect of the '
                      '1e-5 deg bearing rounding; wedge sides: 2e-5 deg)',
